@@ -141,7 +141,7 @@ func (m mapConf) String() string                                              { 
 
 // levelOf maps the four level names to the numeric levels of logger.Logger (error 3 … debug 0).
 func levelOf(s string) int {
-	switch s {
+	switch strings.ToLower(s) {
 	case "error":
 		return 3
 	case "warn":
